@@ -16,7 +16,8 @@ PROP = dict(
                    "key by key): with nothing set it IS the model of the other theorems (C16_no_set); after Set the path that was set, every path below it that the value "
                    "covers and every ancestor answer with what was set, in any letter case and also when the key was absent before (C16_set_get, C16_set_seen_below, "
                    "C16_set_seen_through_ancestor, C16_set_present); a tag resolved AGAIN is resolved under the configuration as it is then (C16_resolve_again_current) - "
-                   "tied by histories resolve / Set / resolve on the real binder.",
+                   "tied by histories resolve / Set / resolve on the real binder. The tag TEXT: NewProperty cuts the arguments off at the first top-level comma (Ioc.Tag.parse?), so a value part "
+                   "whose commas all lie inside its (nested) blocks reaches the processor whole (C16_arguments_cut_outside, C16_text_total) - tied by tag texts with arguments through the real NewProperty.",
         level_note="Modelled, not verified: Go regexp (leftmost-first) for the fixed pattern, strings.Replace/SplitN, viper.Get/AllSettings path lookup, "
                    "strconv2.ParseAny/FormatAny on the default text, json.Marshal and %v of configured values. Defaults that are slice/map literals or numbers "
                    "with more than 15 significant digits are left unmodelled (explicit outcome; such cases are run and judged by the oracles only, and counted).",
@@ -38,6 +39,12 @@ PROP = dict(
              "carry placeholders), half over random trees and grammar tags; a tenth also end to end through two Apps sharing the Configure (app.SetConfigure). The second "
              "resolution must be what the harness's own substitution gives under ITS account of the current configuration (document + the values handed to Set composed "
              "in order; it answers only for a path no Set is near, or one that a Set at or above it gave a value; signatures placeholder-set-stale / placeholder-set-current). "
+             "After these (seventh round) n/12 groups of tag TEXTS (scenario `T`): the property is created by the real NewProperty from the whole text of a value tag - value part and "
+             "0-2 arguments (required forms, validate=…, qualifier=[a, b], x=(p, q) r, mapper=yaml) - whose placeholders nest so that an inner closer is followed by a comma of the outer "
+             "block: a placeholder in the key with a comma in the default (`${motd.${lang}:Welcome, stranger}`, dotted and flat, two levels deep), placeholders and a comma in a default, "
+             "placeholders as arguments of an expression (`#{max(${low:1},${quota.${tier}:100})}`, nested calls), a call in the default, two blocks in one tag; each under the designed and a "
+             "mutated configuration, a quarter of those with inert arguments also end to end. Oracles: the value part of a bracket-balanced text is the text before its first top-level "
+             "comma by the harness's own reader - a processor handed anything else has not replaced the tag's placeholders (placeholder-tagtext) -, then the substitution oracle on that value part. "
              "A case is non-trivial when the tag contains a placeholder; distinct = distinct scenario lines",
         trusted_base=COMMON_TB + ["Go regexp, strings.Replace/SplitN, viper v1.19 Get/AllSettings, strconv2 v0.0.2 ParseAny/FormatAny, encoding/json and fmt %v as modelled in "
                                   "Ioc.Placeholder (validated by the correspondence)",
